@@ -5,7 +5,11 @@ FreeTonics == Names(KT)
 TonicsOf(c) == CASE c \in MajorFamily -> MajorTonics [] c \in MinorFamily -> MinorTonics
                  [] c = "Chromatic" -> AllKeys [] OTHER -> FreeTonics
 ScaleCases == {[kind |-> "scale", c |-> c, t |-> t, n |-> n] : c \in Classes, t \in Names(KT) \cup AllKeys, n \in 1..NMAX}
-EqPool == {<<c, t, n>> : c \in MinorFamily \cup {"Major", "Aeolian", "Ionian"}, t \in {<<"A">>, <<"C">>, <<"E">>}, n \in 1..2}
+\* equality pool: the families that share note lists, every class once on C, and the chromatic scale in major and minor keys that
+\* share a tonic (same class, same tonic, different notes)
+EqPool == {<<c, t, n>> : c \in MinorFamily \cup {"Major", "Aeolian", "Ionian"}, t \in {<<"A">>, <<"C">>, <<"E">>}, n \in 1..2} \cup
+          {<<c, <<"C">>, 1>> : c \in Classes \ {"Chromatic"}} \cup
+          {<<"Chromatic", t, n>> : t \in {<<"C">>, <<"c">>, <<"A">>, <<"a">>, <<"E">>, <<"e">>, <<"B", "b">>, <<"b", "b">>}, n \in 1..2}
 Subsets(S) == {T \in SUBSET S : Cardinality(T) \in SUBSIZES}
 RecSets == UNION {Subsets(FamAsc[f]) \cup Subsets(FamDesc[f]) : f \in Family}
 Cases == {x \in ScaleCases : x.t \in TonicsOf(x.c)} \cup
